@@ -591,6 +591,9 @@ package task
 //@   on aftercall makeTaskForMesosResources : attempted = true
 //@   on call calls.Accept : answered = true
 //@   on return : assert attempted ==> answered
+// C05 (a task is placed only where the resources allow): what a descriptor wants is compared with what is LEFT of the
+// offer after the tasks already assembled on it in this round - in both matching loops - not with the offer as it came
+//@   on call (Resources).Satisfy : assert argname0 == "remainingResourcesInOffer"
 
 // ---------------------------------------------------------------------------------------------------------
 // C05: the ports handed to a task come from the offer: every dynamic port and the control port is the minimum of what is
